@@ -80,6 +80,12 @@ def make_cases(rng, tier):
                 cases.append(case("general", (a1, a2, a3)))
                 if a2[2] * a3[2] <= 65 * 5:
                     cases.append(case("quart", (a1, a2, a3)))
+    Z = (1, 0, 1)
+    for a1 in A:
+        for (a2, a3) in ((Z, Z), (Z, S[1]), (S[-1], Z)):
+            cases.append(case("general", (a1, a2, a3)))
+            cases.append(case("quart", (a1, a2, a3)))
+            cases.append(case("tilt", (a1, a2, a3)))
     T = rng.sample(A, 6) + S
     for a1 in T:
         for a2 in T[:8]:
@@ -164,6 +170,18 @@ def worker(x):
                 M = G(mod.rod_to_u, r) if not bigrod else ex
             M = np.asarray(M, dtype=float)
             n += 1
+            # ... and with the angles exactly as constructed (exact zeros stay exact zeros: shortcuts for "no tilt" are taken)
+            if k in ("omega", "general", "quart", "tilt"):
+                a0 = [ang(t) for t in cs["a"]]
+                M0 = {"omega": lambda: mod.form_omega_mat(a0[0]),
+                      "general": lambda: mod.form_omega_mat_general(a0[0], a0[1], a0[2]),
+                      "quart": lambda: mod.quart_to_omega(math.degrees(a0[0]), a0[1], a0[2]),
+                      "tilt": lambda: mod.detect_tilt(a0[0], a0[1], a0[2])}[k]()
+                M0 = np.asarray(M0, dtype=float)
+                n += 1
+                if M0.shape != (3, 3) or not np.all(np.isfinite(M0)) or np.abs(M0 - ex).max() > 2e-11:
+                    out.append("%s with the unshifted angles %s differs from the documented composition by %.3g (%s)" %
+                               (k, a0, float(np.abs(M0 - ex).max()) if M0.shape == (3, 3) else -1, tag))
             if M.shape != (3, 3) or not np.all(np.isfinite(M)) or np.abs(M - ex).max() > 1e-12 * (1 if k != "rod" else 10) * (20 if k in ("omega", "general", "quart", "tilt") else 1):
                 out.append("%s differs from the documented composition of elementary rotations by %.3g (%s)" %
                            ({"euler": "euler_to_u", "omega": "form_omega_mat", "general": "form_omega_mat_general",
